@@ -82,6 +82,9 @@ EXTRA = {
     "GaussianLikelihood_lognormal": lambda: L.GaussianLikelihood(noise_prior=P.LogNormalPrior(-1.0, 0.5), noise_constraint=C.GreaterThan(1e-3)),
     "MultitaskGaussianLikelihood_prior": lambda: L.MultitaskGaussianLikelihood(num_tasks=2, rank=1, noise_prior=_g()),
     "BernoulliLikelihood": lambda: L.BernoulliLikelihood(),
+    # plain GridKernel; variant 1 = another grid of the same size (the grid buffers travel in the state_dict)
+    "GridKernel": lambda v=0: K.GridKernel(K.RBFKernel(), grid=[torch.linspace(0, 1, 4) * (1.0 + 0.6 * v) + 0.3 * v, torch.linspace(0, 1, 4) ** (1 + v)]),
+    "GridKernel_matern": lambda v=0: K.ScaleKernel(K.GridKernel(K.MaternKernel(nu=1.5), grid=[torch.linspace(-1, 1, 5) * (1.0 + 0.4 * v)])),
     # constraints carrying an initial value (applied when the constraint is registered; a round trip must not re-apply it)
     "GaussianLikelihood_initial_value": lambda v=0: L.GaussianLikelihood(noise_constraint=C.GreaterThan(1e-4, initial_value=0.05 + 0.1 * v)),
     "ConstantMean_initial_value": lambda v=0: Mn.ConstantMean(constant_constraint=C.Interval(-2.0, 2.0, initial_value=0.5 - 0.3 * v)),
@@ -172,6 +175,14 @@ def observe(module, seed, grad=False):
             else:
                 out["K12"] = compare.dense(module(x1, x2)).detach()
                 out["K11"] = compare.dense(module(x1)).detach()
+                gk = next((m for m in module.modules() if isinstance(m, K.GridKernel) and not isinstance(m, K.GridInterpolationKernel)), None)
+                fg = getattr(gk, "full_grid", None)
+                if gk is not None and torch.is_tensor(fg):
+                    # the structured path of a GridKernel is only taken on its own grid, in eval mode
+                    was = module.training
+                    module.eval()
+                    out["K_grid"] = compare.dense(module(fg.to(dtype))).detach()
+                    module.train(was)
         elif isinstance(module, L.Likelihood if hasattr(L, "Likelihood") else ()):
             n = 4
             mean = torch.linspace(-1, 1, n, dtype=dtype)
@@ -265,11 +276,27 @@ def execute(history):
                             for p in new.parameters():
                                 p.add_(0.3 * torch.randn(p.shape, generator=g, dtype=p.dtype))
                         new.train(src.training)
+                        dirty = False
+                        if op["seed"] % 5 < 2:
+                            # a used target: it has been evaluated (in both modes) before the checkpoint is loaded into it
+                            try:
+                                observe(new, op["seed"] + 1)
+                                out.stats["probe:dirty_target"] += 1
+                                dirty = True
+                            except Exception:  # noqa
+                                pass
+                            new.train(src.training)
                         new.load_state_dict(torch.load(io.BytesIO(buf.getvalue())))
                     out.stats["fault:crash_restore_" + how] += 1
                     out.stats["probe:restored_" + how] += 1
                 except Exception as e:  # noqa
                     msg = str(e)
+                    if how == "state_dict" and locals().get("dirty") and isinstance(e, RuntimeError) and ("Missing key(s)" in msg or "Unexpected key(s)" in msg):
+                        # a used target may hold (or lack) a lazily created buffer that the checkpoint lacks (or holds), e.g. the
+                        # RFF weights of a kernel built without num_dims: torch rejects the strict load explicitly - nothing to judge
+                        out.stats["probe:dirty_target_strict_key_mismatch"] += 1
+                        sketch.append(tag + "?")
+                        continue
                     kind = "non_leaf_deepcopy" if ("graph leaves" in msg or "view was created in no_grad mode" in msg) else ("local_object" if "local object" in msg or "Can't pickle" in msg else type(e).__name__)
                     out.violate("snapshot_failed", i, "%s of %s raised %s(%s)" % (how, entry, type(e).__name__, msg[:160]), exc_kind=kind, model_kind=("grid_module" if "Grid" in entry or "grid" in entry.lower() else "module"), defined_in=core.local_object_site(msg) if kind == "local_object" else "n/a", **cls)
                     sketch.append(tag + "!")
@@ -334,8 +361,11 @@ def execute(history):
                     check_pair(out, i, A, B, entry, dtn, how_last, tol, op.get("seed", 1), "after " + k)
             out.transitions.add("%s->%s" % (entry.split("_")[0], tag))
             sketch.append(tag)
-        for q, v in sorted(observe(A, 1).items()):
-            out.log.add(q, v)
+        try:
+            for q, v in sorted(observe(A, 1).items()):
+                out.log.add(q, v)
+        except Exception as e:  # noqa  (an entry that cannot be evaluated on the probe inputs is compared on state and priors only)
+            out.log.add("observe_raises", type(e).__name__)
         out.nontrivial = compared
         out.sketch = "%s:%s:%s" % (entry, dtn, ">".join(sketch))
     finally:
